@@ -249,6 +249,8 @@ def span_cases(draw, family=None):
         c["nan_obs"] = draw(st.lists(st.tuples(st.integers(0, 420), st.integers(1, 20)), max_size=3))
         c["inf_T"] = draw(st.lists(st.integers(0, 420), max_size=2))
         c["hourly_T"] = draw(st.booleans())
+        # a daily meter read at another hour than local midnight (06:00 gas day, 09:00, 13:00): the rows keep that hour
+        c["read_hour"] = draw(st.sampled_from([0, 0, 0, 6, 9, 13])) if fam == "daily" else 0
     return c
 
 
@@ -304,6 +306,9 @@ def judge_span(c, rec):
     m, doc = gp.build_model(c["model"])
     n = c["n"]
     idx = synth.local_midnights(c["start_day"], n, tz)
+    if c.get("read_hour"):
+        idx = (idx.tz_localize(None).normalize() + pd.Timedelta(hours=c["read_hour"])).tz_localize(tz, ambiguous=True, nonexistent="shift_forward")
+        cls = cls + ["read-hour=%d" % c["read_hour"]]
     rng = np.random.default_rng(c["seed"])
     T = synth.daily_temperature(idx, {}, rng)
     for a, ln in c["nan_T"]:
@@ -345,6 +350,8 @@ def judge_span(c, rec):
     # DST date inside?
     off = pd.Series(out.index.map(lambda t: t.utcoffset()))
     nt = off.nunique() > 1
+    if c.get("read_hour"):
+        cls = cls + ["frame-keeps-read-hour=%d" % bool(len(dd) and dd.index[-1].hour == c["read_hour"])]
     rec.case(c, bool(nt), cls + ["dst-inside=%d" % nt])
 
 
